@@ -107,6 +107,7 @@ type vfWorld struct {
 	blockedN    int
 	getInboxVal vocab.ActivityStreamsOrderedCollectionPage
 	getOutboxVal vocab.ActivityStreamsOrderedCollectionPage
+	nFaults     int // injected faults on this path
 }
 
 func vfNewWorld() *vfWorld {
@@ -134,7 +135,11 @@ func (w *vfWorld) fault(site string) bool {
 	if !w.faults {
 		return false
 	}
-	return vfFault(site)
+	if vfFault(site) {
+		w.nFaults++
+		return true
+	}
+	return false
 }
 
 func vfS(u *url.URL) string {
